@@ -430,6 +430,25 @@ def startsWith0x (v : Str) : Bool :=
 def sTrue : Str := ['T','r','u','e']
 def sFalse : Str := ['F','a','l','s','e']
 
+/-- `TransportDescriptorParser._escape`: `value.replace("%", "%25").replace(":", "%3A")` (character-wise: `%` ↦ `%25`,
+`:` ↦ `%3A`) -/
+def escape : Str → Str
+  | [] => []
+  | c :: cs =>
+    if c == '%' then '%' :: '2' :: '5' :: escape cs
+    else if c == ':' then '%' :: '3' :: 'A' :: escape cs
+    else c :: escape cs
+
+/-- `TransportDescriptorParser._unescape`: `re.sub("%(3A|25)", …)`, leftmost non-overlapping matches -/
+def unescape : Str → Str
+  | [] => []
+  | [a] => [a]
+  | [a, b] => [a, b]
+  | a :: b :: c :: r =>
+    if a == '%' && b == '3' && c == 'A' then ':' :: unescape r
+    else if a == '%' && b == '2' && c == '5' then '%' :: unescape r
+    else a :: unescape (b :: c :: r)
+
 /-- the conversion inside the `try` of `_parse_keyword_parameters` -/
 def convKw (ty : Ty) (v : Str) : Res PyVal :=
   match ty with
@@ -441,7 +460,7 @@ def convKw (ty : Ty) (v : Str) : Res PyVal :=
     if v = sTrue then .ok (.bool true)
     else if v = sFalse then .ok (.bool false)
     else .err .valueError
-  | .str => .ok (.str v)
+  | .str => .ok (.str (unescape v))
   | .float => if (floatParse v).isSome then .ok (.flt v) else .err .valueError
 
 /-- `except ValueError: raise QMI_TransportDescriptorException(...)` -/
@@ -487,9 +506,34 @@ character whose lower case is ASCII is U+212A → `'k'`; U+0130 lowers to two ch
 def ifaceMatches (part : Str) (name : Str) : Bool :=
   part.all isAscii && part.map asciiLower == name
 
-/-- the body of `parse_parameter_strings` after the interface check -/
+/-- `isinstance(value, ty) or (ty is float and isinstance(value, int))` (`bool` is a subclass of `int`; `None` is an
+instance of no declared type) -/
+def pyIsInstance : PyVal → Ty → Bool
+  | .str _, .str => true
+  | .int _, .int => true
+  | .bool _, .int => true
+  | .flt _, .float => true
+  | .int _, .float => true
+  | .bool _, .float => true
+  | .bool _, .bool => true
+  | _, _ => false
+
+/-- `expected_types[attr]`: the keyword table is merged over the positional one -/
+def expectedTy (I : Iface) (k : Str) : Option Ty :=
+  match findParam I.keywords k with
+  | some q => some q.ty
+  | none => (findParam I.positionals k).map (·.ty)
+
+def defaultTypeOk (I : Iface) (kv : Str × PyVal) : Bool :=
+  match expectedTy I kv.1 with
+  | some ty => pyIsInstance kv.2 ty
+  | none => true
+
+/-- the body of `parse_parameter_strings` (the type check of the kept defaults precedes the parsing of the string in the
+code; both can only raise the descriptor error) -/
 def parseParams (I : Iface) (parts : List Str) (defaults : List (Str × PyVal)) : Res Dict :=
   let p0 : Dict := (dictOf defaults).filter (fun kv => knownName I kv.1)
+  if !(p0.all (defaultTypeOk I)) then .err .descriptor else      -- "Default parameter … expected type … but got …"
   let args := parts.drop 1
   match parsePositional [] I.positionals (args.filter (fun a => !isKw a)) with
   | .err e => .err e
@@ -659,7 +703,7 @@ def validateHost (h : Str) : Res Unit :=
 /-- does the test hold of the value?  Python semantics for every kind of value a parameter can carry (the string gives
 values of the declared type; a caller's defaults dictionary can hold anything): ordering comparisons with `str` / `None`
 raise `TypeError`, `==` and `in` never raise, `.upper()` on a non-string raises `AttributeError`, `len()` of a
-non-string `TypeError`.  A float where an int / bool is declared is outside the modelled domain (`typeError` placeholder). -/
+non-string `TypeError`.  A float where an int / bool is declared is rejected by the type check of the defaults before it gets here (`typeError` placeholder). -/
 def Cond.holds : Cond → PyVal → Res Bool
   | .lt k, .int i => .ok (i < k)
   | .lt k, .bool b => .ok ((if b then 1 else 0) < k)
@@ -681,7 +725,7 @@ def Cond.holds : Cond → PyVal → Res Bool
   | .notStopbits, .flt lit =>
     (match floatParse lit with
      | some f => .ok (!(floatIsStopbits f))
-     | none => .err .typeError)
+     | none => .ok true)        -- a `.flt` whose literal is no float literal denotes no Python value; never produced
   | .notStopbits, .int i => .ok (!(i = 1 || i = 2))
   | .notStopbits, .bool b => .ok (!b)
   | .notStopbits, _ => .ok true
@@ -770,7 +814,7 @@ def sSerialKw : Str := ['s','e','r','i','a','l','n','r','=']
 
 /-- the descriptor `_format_resources` builds -/
 def renderUsbtmc (vendor product : Int) (serial : Str) : Str :=
-  sUsbtmc ++ ':' :: (sVendorKw ++ fmt04x vendor) ++ ':' :: (sProductKw ++ fmt04x product) ++ ':' :: (sSerialKw ++ serial)
+  sUsbtmc ++ ':' :: (sVendorKw ++ fmt04x vendor) ++ ':' :: (sProductKw ++ fmt04x product) ++ ':' :: (sSerialKw ++ escape serial)
 
 /-- split on the two-character separator `"::"` (`str.split("::")`, leftmost non-overlapping) -/
 def splitDColon : Str → List Str
